@@ -122,7 +122,7 @@ func findEmissionsIn(fn *Func, body ast.Node, sel emitSel) []ast.Node {
 						if sel.argIs != "" {
 							hit := false
 							for _, ia := range inner.Args {
-								if sameText(fn, exprStr(ia), sel.argIs) {
+								if sameText(fn, exprStr(ia), sel.argIs) || sameText(fn, exprStr(constFold(fn, ia)), sel.argIs) {
 									hit = true
 								}
 							}
@@ -137,7 +137,7 @@ func findEmissionsIn(fn *Func, body ast.Node, sel emitSel) []ast.Node {
 					out = append(out, call)
 				}
 				if sel.kind == emAppendIdent {
-					if id, ok := ast.Unparen(a).(*ast.Ident); ok && id.Name == sel.name {
+					if id, ok := ast.Unparen(a).(*ast.Ident); ok && identIs(fn, id, sel.name) {
 						out = append(out, call)
 					}
 				}
@@ -199,7 +199,7 @@ func findEmissionsIn(fn *Func, body ast.Node, sel emitSel) []ast.Node {
 			}
 		case emReturnIdent:
 			if rs, ok := n.(*ast.ReturnStmt); ok && len(rs.Results) >= 1 {
-				if id, ok := ast.Unparen(rs.Results[0]).(*ast.Ident); ok && id.Name == sel.name {
+				if id, ok := ast.Unparen(rs.Results[0]).(*ast.Ident); ok && identIs(fn, id, sel.name) {
 					out = append(out, rs)
 				}
 			}
@@ -233,7 +233,7 @@ func findEmissionsIn(fn *Func, body ast.Node, sel emitSel) []ast.Node {
 		case emAssignIdent:
 			if as, ok := n.(*ast.AssignStmt); ok && len(as.Lhs) == len(as.Rhs) {
 				for i, l := range as.Lhs {
-					if id, ok := ast.Unparen(l).(*ast.Ident); ok && (id.Name == sel.name || sel.name == "") {
+					if id, ok := ast.Unparen(l).(*ast.Ident); ok && (sel.name == "" || identIs(fn, id, sel.name)) {
 						if sel.argIs == "" || sameText(fn, exprStr(as.Rhs[i]), sel.argIs) {
 							out = append(out, as)
 						}
@@ -243,7 +243,7 @@ func findEmissionsIn(fn *Func, body ast.Node, sel emitSel) []ast.Node {
 		case emAssignField:
 			if as, ok := n.(*ast.AssignStmt); ok {
 				for i, l := range as.Lhs {
-					if s, ok := ast.Unparen(l).(*ast.SelectorExpr); ok && s.Sel.Name == sel.field {
+					if s, ok := ast.Unparen(l).(*ast.SelectorExpr); ok && canonId(s.Sel.Name) == sel.field {
 						if sel.argIs == "" || (len(as.Lhs) == len(as.Rhs) && containsText(fn, exprStr(as.Rhs[i]), sel.argIs)) {
 							out = append(out, as)
 						}
@@ -254,6 +254,19 @@ func findEmissionsIn(fn *Func, body ast.Node, sel emitSel) []ast.Node {
 		return true
 	})
 	return out
+}
+
+// identIs: the identifier is the row's variable `name` — by name, or, when the function no
+// longer declares any variable of that name (it was renamed), any local variable.
+func identIs(fn *Func, id *ast.Ident, name string) bool {
+	if id.Name == name || canonId(id.Name) == name {
+		return true
+	}
+	if localNames(fn)[name] {
+		return false
+	}
+	v, ok := fn.Info().ObjectOf(id).(*types.Var)
+	return ok && !v.IsField() && v.Pkg() != nil && v.Parent() != v.Pkg().Scope()
 }
 
 // ---- guards -----------------------------------------------------------------------------
@@ -371,9 +384,57 @@ func aliasSel(fn *Func, e ast.Expr) string {
 		return ""
 	}
 	if s, ok := ast.Unparen(def).(*ast.SelectorExpr); ok {
-		return s.Sel.Name
+		return canonId(s.Sel.Name)
 	}
 	return ""
+}
+
+// constFold: e with identifiers of module-declared basic constants replaced by their
+// literal values (`attr.Name == countAttrName` reads `attr.Name == "count"`).
+func constFold(fn *Func, e ast.Expr) ast.Expr {
+	info := fn.Info()
+	var fold func(x ast.Expr) ast.Expr
+	fold = func(x ast.Expr) ast.Expr {
+		switch v := ast.Unparen(x).(type) {
+		case *ast.Ident, *ast.SelectorExpr:
+			var id *ast.Ident
+			if i, ok := v.(*ast.Ident); ok {
+				id = i
+			} else {
+				id = v.(*ast.SelectorExpr).Sel
+			}
+			if c, ok := info.ObjectOf(id).(*types.Const); ok && c.Pkg() != nil && strings.HasPrefix(c.Pkg().Path(), modPath) {
+				if b, ok := c.Type().Underlying().(*types.Basic); ok && b.Info()&(types.IsString|types.IsNumeric) != 0 && b.Info()&types.IsUntyped != 0 {
+					kind := token.INT
+					if b.Info()&types.IsString != 0 {
+						kind = token.STRING
+					} else if b.Info()&types.IsFloat != 0 {
+						kind = token.FLOAT
+					}
+					return &ast.BasicLit{Kind: kind, Value: c.Val().ExactString()}
+				}
+			}
+		case *ast.BinaryExpr:
+			l, r := fold(v.X), fold(v.Y)
+			if l != v.X || r != v.Y {
+				return &ast.BinaryExpr{X: l, Op: v.Op, Y: r}
+			}
+		case *ast.CallExpr:
+			changed := false
+			args := make([]ast.Expr, len(v.Args))
+			for i, a := range v.Args {
+				args[i] = fold(a)
+				if args[i] != a {
+					changed = true
+				}
+			}
+			if changed {
+				return &ast.CallExpr{Fun: v.Fun, Args: args}
+			}
+		}
+		return x
+	}
+	return fold(e)
 }
 
 // cmpText: normalised text of a comparison (package qualifiers dropped).
@@ -414,11 +475,11 @@ func atomMatches(fn *Func, a *Atom, g guard) bool {
 	case gField:
 		switch x := e.(type) {
 		case *ast.SelectorExpr:
-			if x.Sel.Name == g.name {
+			if canonId(x.Sel.Name) == g.name {
 				return a.Pol == g.pol
 			}
 		case *ast.Ident:
-			if x.Name == g.name || aliasSel(fn, x) == g.name {
+			if canonId(x.Name) == g.name || aliasSel(fn, x) == g.name {
 				return a.Pol == g.pol
 			}
 		}
@@ -438,6 +499,10 @@ func atomMatches(fn *Func, a *Atom, g guard) bool {
 	case gCmp:
 		if be0, ok := e.(*ast.BinaryExpr); ok {
 			if sameText(fn, cmpText(e), g.name) {
+				return a.Pol == g.pol
+			}
+			// named constants of the module stand for their values
+			if fe := constFold(fn, be0); fe != ast.Expr(be0) && sameText(fn, cmpText(fe), g.name) {
 				return a.Pol == g.pol
 			}
 			for _, alt := range inlinedVariants(fn, be0) {
